@@ -15,6 +15,7 @@ import (
 	"regexp"
 	"runtime"
 	"runtime/debug"
+	"runtime/pprof"
 	"sort"
 	"strconv"
 	"strings"
@@ -288,6 +289,12 @@ func runWorker(ck *Check, tier universe.Tier, spec, out string, budget time.Dura
 	if f, err := os.Create(out + ".crumb"); err == nil {
 		Cur.crumb = f
 	}
+	if pf := os.Getenv("VERIF_CPUPROFILE"); pf != "" {
+		if f, err := os.Create(pf); err == nil {
+			pprof.StartCPUProfile(f)
+			defer pprof.StopCPUProfile()
+		}
+	}
 	res := &PhaseResult{Phase: name}
 	var deadline time.Time
 	if budget > 0 {
@@ -332,6 +339,7 @@ func runWorker(ck *Check, tier universe.Tier, spec, out string, budget time.Dura
 		os.Exit(3)
 	}
 	os.Remove(out + ".crumb")
+	pprof.StopCPUProfile()
 	os.Exit(0)
 }
 
